@@ -7,8 +7,6 @@ import (
 	"go/ast"
 	"go/token"
 	"go/types"
-	"sort"
-	"strings"
 )
 
 func init() { register("C20", false, checkC20) }
@@ -53,89 +51,13 @@ type keyAssign struct {
 	stmt  *ast.AssignStmt
 }
 
-func (a *c20) keySwitch(sw *ast.SwitchStmt) map[string][]keyAssign {
-	out := map[string][]keyAssign{}
-	for _, cl := range sw.Body.List {
-		cc := cl.(*ast.CaseClause)
-		var keys []string
-		for _, e := range cc.List {
-			if k, ok := constString(a.info, e); ok {
-				keys = append(keys, k)
-			}
-		}
-		var assigns []keyAssign
-		ast.Inspect(&ast.BlockStmt{List: cc.Body}, func(n ast.Node) bool {
-			as, ok := n.(*ast.AssignStmt)
-			if !ok {
-				return true
-			}
-			for i, l := range as.Lhs {
-				sel, ok := unparen(l).(*ast.SelectorExpr)
-				if !ok {
-					continue
-				}
-				s := a.info.Selections[sel]
-				if s == nil {
-					continue
-				}
-				v, ok := s.Obj().(*types.Var)
-				if !ok || !v.IsField() || !isFloat64(v.Type()) {
-					continue
-				}
-				var rhs ast.Expr
-				if len(as.Rhs) == len(as.Lhs) {
-					rhs = as.Rhs[i]
-				}
-				assigns = append(assigns, keyAssign{v.Name(), rhs, as})
-			}
-			return true
-		})
-		for _, k := range keys {
-			out[k] = assigns
-		}
-	}
-	return out
-}
-
-// findKeySwitch: the switch statement with the most case keys from want.
-func (a *c20) findKeySwitch(want map[string]bool) (*ast.SwitchStmt, *ast.FuncDecl) {
-	var best *ast.SwitchStmt
-	var bestFd *ast.FuncDecl
-	bestN := 0
-	for _, fn := range a.c.P.RepoFuncs() {
-		if a.c.P.DeclPkg(fn) != a.p {
-			continue
-		}
-		fd := a.c.P.Decl(fn)
-		ast.Inspect(fd.Body, func(n ast.Node) bool {
-			sw, ok := n.(*ast.SwitchStmt)
-			if !ok || sw.Tag == nil {
-				return true
-			}
-			hits := 0
-			for _, cl := range sw.Body.List {
-				for _, e := range cl.(*ast.CaseClause).List {
-					if k, ok := constString(a.info, e); ok && want[k] {
-						hits++
-					}
-				}
-			}
-			if hits > bestN {
-				best, bestFd, bestN = sw, fd, hits
-			}
-			return true
-		})
-	}
-	return best, bestFd
-}
-
 func checkC20(c *Ctx) {
-	c.Rule("C20.R1", "the WKT PARAMETER switch and the PROJ.4 key switch assign the same SR field for corresponding names (standard_parallel_1↔lat_1, …, false_easting↔x_0, scale_factor↔k_0, azimuth↔alpha)")
-	c.Rule("C20.R2", "WKT angular parameters are multiplied by deg2rad and linear/scale ones are not; the false origin is multiplied by ToMeter once, after all sections are parsed, and not reassigned afterwards; UNIT stores its factor into ToMeter for projected systems")
-	c.Rule("C20.R3", "every WKT projection name (Mercator_1SP, Lambert_Conformal_Conic_2SP, Albers_Conic_Equal_Area, Equidistant_Conic, Transverse_Mercator) is registered for the same constructor as its PROJ.4 short name; alias names in the definition registry are bound to the identical *SR")
+	c.Rule("C20.R1", "model evaluation with symbolic parameters: proj.Parse of an OGC WKT text and of the PROJ.4 text describing the same system (each of the five WKT projection names, an oblique projection for centre/azimuth names, central_parallel, a plain geographic system) stores every parameter in the same SR field: standard_parallel_1↔lat_1, standard_parallel_2↔lat_2, latitude_of_origin/latitude_of_center/central_parallel↔lat_0, central_meridian↔lon_0, longitude_of_center↔lonc, false_easting↔x_0, false_northing↔y_0, scale_factor↔k_0, azimuth↔alpha")
+	c.Rule("C20.R2", "model evaluation: angular parameters come out as symbol × deg2rad from either spelling and ratios as the bare symbol; a WKT false origin comes out as symbol × declared linear unit (PROJ.4: the bare symbol, always metres); UNIT's factor reaches SR.ToMeter; SPHEROID[a, 1/f] and +a +rf give identical terms for A, B, Rf, A2, B2, Es, E, Ep2 after DeriveConstants (branches on parameter values follow a stated reference valuation: an ordinary ellipsoid)")
+	c.Rule("C20.R3", "model evaluation: the projection name stored by the WKT parser and the one stored by the PROJ.4 parser are registered for the same constructor; every name in the definition registry after start-up is either a definition whose registered reference equals a fresh parse of its text, or an alias bound to the identical *SR of a definition; WGS84 ≡ EPSG:4326 and the web-mercator aliases ≡ EPSG:3857")
 	c.Rule("C20.R6", "parameters are applied in textual order: no parser loop that stores into the spatial reference ranges over a map")
 	c.Rule("C20.R7", "the datum-shift list is stored with one element per value written (make(len(list)) filled by the parse loop), never truncated or replaced")
-	c.Rule("C20.R5", "SR.Equal is total and NaN-aware: float fields are equal exactly when both are NaN or neither is and they agree within the ULP bound; slice fields are indexed only after a length-equality test; pointer fields are followed only after nil-parity and non-nil tests")
+	c.Rule("C20.R5", "model evaluation of SR.Equal on parsed references (reflection described by go/types, ULP comparison of two generic values true exactly for identical terms): true for two parses of one text in both argument orders; false — never a panic — when a float (first or last), a set/unset (NaN) marker, a string, a flag, a datum-shift value, the length of the datum-shift list, a nested pointer's nil-ness or a float behind a nested pointer differs")
 	c.Rule("C20.R4", "NewTransform returns the nil (identity) transformer on exactly the paths where Equal is true")
 	p := c.P.Pkg("proj")
 	if p == nil {
@@ -143,272 +65,16 @@ func checkC20(c *Ctx) {
 		return
 	}
 	a := &c20{c: c, info: p.TypesInfo, p: p}
-	wktKeys, projKeys := map[string]bool{}, map[string]bool{}
-	for _, r := range c20corr {
-		wktKeys[r[0]] = true
-		projKeys[r[1]] = true
-	}
-	wsw, wfd := a.findKeySwitch(wktKeys)
-	psw, _ := a.findKeySwitch(projKeys)
-	if wsw == nil || psw == nil {
-		c.Unk("C20.R1", "proj#parameter-switches", token.NoPos, "WKT PARAMETER switch or PROJ.4 key switch not found")
-		return
-	}
-	wk, pk := a.keySwitch(wsw), a.keySwitch(psw)
-	d2r := p.Types.Scope().Lookup("deg2rad")
-	hasD2R := func(e ast.Expr) bool {
-		found := false
-		if e == nil {
-			return false
-		}
-		ast.Inspect(e, func(n ast.Node) bool {
-			if b, ok := n.(*ast.BinaryExpr); ok && b.Op == token.MUL && (objOf(a.info, b.X) == d2r || objOf(a.info, b.Y) == d2r) {
-				found = true
-			}
-			return true
-		})
-		return found
-	}
-	for _, r := range c20corr {
-		cons := "proj#parameter(" + r[0] + "↔" + r[1] + ")"
-		wa, pa := wk[r[0]], pk[r[1]]
-		wf, pf := fieldSet(wa), fieldSet(pa)
-		switch {
-		case len(wa) == 0:
-			c.Bad("C20.R1", cons, wsw.Pos(), "the WKT parser has no case for PARAMETER[%q]", r[0])
-		case len(pa) == 0:
-			c.Bad("C20.R1", cons, psw.Pos(), "the PROJ.4 parser has no case for +%s", r[1])
-		case strings.Join(wf, ",") != strings.Join(pf, ","):
-			c.Bad("C20.R1", cons, wa[0].stmt.Pos(), "WKT PARAMETER[%q] sets %v but PROJ.4 +%s sets %v: the two spellings of one CRS describe different projections", r[0], wf, r[1], pf)
-		default:
-			c.OK("C20.R1", cons, wa[0].stmt.Pos(), "both set %v", wf)
-		}
-		// R2 (angular / linear scaling on the WKT side)
-		if len(wa) > 0 {
-			ucons := "proj#wkt-unit(" + r[0] + ")"
-			scaled := false
-			for _, as := range wa {
-				if hasD2R(as.rhs) {
-					scaled = true
-				}
-				// field *= deg2rad afterwards
-				if as.stmt.Tok == token.MUL_ASSIGN && objOf(a.info, as.stmt.Rhs[0]) == d2r {
-					scaled = true
-				}
-			}
-			switch {
-			case c20angular[r[0]] && !scaled:
-				c.Bad("C20.R2", ucons, wa[0].stmt.Pos(), "WKT PARAMETER[%q] is an angle in degrees but is stored without × deg2rad (PROJ.4 +%s is converted)", r[0], r[1])
-			case !c20angular[r[0]] && scaled:
-				c.Bad("C20.R2", ucons, wa[0].stmt.Pos(), "WKT PARAMETER[%q] is not an angle but is multiplied by deg2rad", r[0])
-			default:
-				c.OK("C20.R2", ucons, wa[0].stmt.Pos(), map[bool]string{true: "degrees → radians", false: "stored as given"}[c20angular[r[0]]])
-			}
-		}
-	}
-	a.falseOrigin(wfd)
-	a.unitFactor()
-	a.registry()
+	c20model(c)
 	a.identity()
+	a.parseOrderAndShift()
 	c.Floor("C20.R1", 11)
 	c.Floor("C20.R2", 13)
-	c.Floor("C20.R3", 6)
-	a.equalTotal()
-	a.parseOrderAndShift()
+	c.Floor("C20.R3", 10)
 	c.Floor("C20.R6", 1)
 	c.Floor("C20.R7", 2)
-	c.Floor("C20.R5", 3)
+	c.Floor("C20.R5", 8)
 	c.Floor("C20.R4", 1)
-}
-
-func fieldSet(as []keyAssign) []string {
-	m := map[string]bool{}
-	for _, a := range as {
-		m[a.field] = true
-	}
-	var out []string
-	for k := range m {
-		out = append(out, k)
-	}
-	sort.Strings(out)
-	return out
-}
-
-// falseOrigin: the WKT entry point multiplies X0 and Y0 by ToMeter exactly once after parsing.
-func (a *c20) falseOrigin(paramFd *ast.FuncDecl) {
-	c := a.c
-	// the entry point: function (string) (*SR, error) that calls the section parser and is called from Parse
-	var entry *ast.FuncDecl
-	var entryFn *types.Func
-	parse := c.P.Func("proj", "Parse")
-	if pfd := c.P.Decl(parse); pfd != nil {
-		ast.Inspect(pfd.Body, func(n ast.Node) bool {
-			if call, ok := n.(*ast.CallExpr); ok {
-				if f := callee(a.info, call); f != nil && c.P.Decl(f) != nil {
-					d := c.P.Decl(f)
-					found := false
-					ast.Inspect(d.Body, func(m ast.Node) bool {
-						if as, ok := m.(*ast.AssignStmt); ok && as.Tok == token.MUL_ASSIGN {
-							if sel, ok := unparen(as.Rhs[0]).(*ast.SelectorExpr); ok && sel.Sel.Name == "ToMeter" {
-								found = true
-							}
-						}
-						return true
-					})
-					if found {
-						entry, entryFn = d, f
-					}
-				}
-			}
-			return true
-		})
-	}
-	for _, fld := range []string{"X0", "Y0"} {
-		cons := "proj#wkt-false-origin(" + fld + ")"
-		if entry == nil {
-			c.Bad("C20.R2", cons, token.NoPos, "no WKT entry point scales the false origin by the linear unit: false_easting/false_northing given in feet are used as metres")
-			continue
-		}
-		n := 0
-		var afterParse bool
-		var parsePos token.Pos
-		ast.Inspect(entry.Body, func(m ast.Node) bool {
-			if call, ok := m.(*ast.CallExpr); ok && parsePos == token.NoPos {
-				if f := callee(a.info, call); f != nil && c.P.Decl(f) != nil && f != entryFn && strings.Contains(strings.ToLower(f.Name()), "wkt") {
-					parsePos = call.Pos()
-				}
-			}
-			return true
-		})
-		ast.Inspect(entry.Body, func(m ast.Node) bool {
-			as, ok := m.(*ast.AssignStmt)
-			if !ok || len(as.Lhs) != 1 {
-				return true
-			}
-			sel, ok := unparen(as.Lhs[0]).(*ast.SelectorExpr)
-			if !ok || sel.Sel.Name != fld {
-				return true
-			}
-			if as.Tok == token.MUL_ASSIGN {
-				if rs, ok := unparen(as.Rhs[0]).(*ast.SelectorExpr); ok && rs.Sel.Name == "ToMeter" && sameExpr(a.info, rs.X, sel.X) {
-					n++
-					afterParse = as.Pos() > parsePos && parsePos != token.NoPos
-				}
-			}
-			return true
-		})
-		switch {
-		case n != 1:
-			c.Bad("C20.R2", cons, entry.Pos(), "%s is multiplied by ToMeter %d times in the WKT entry point (want exactly once)", fld, n)
-		case !afterParse:
-			c.Bad("C20.R2", cons, entry.Pos(), "%s is scaled by ToMeter before the sections (and hence the UNIT clause) have been parsed", fld)
-		default:
-			c.OK("C20.R2", cons, entry.Pos(), "%s × ToMeter once, after parsing", fld)
-		}
-	}
-}
-
-// unitFactor: the UNIT handler stores the conversion factor into ToMeter for projected systems.
-func (a *c20) unitFactor() {
-	c := a.c
-	cons := "proj#wkt-unit-factor"
-	for _, fn := range c.P.RepoFuncs() {
-		if c.P.DeclPkg(fn) != a.p {
-			continue
-		}
-		fd := c.P.Decl(fn)
-		var stores []*ast.AssignStmt
-		ast.Inspect(fd.Body, func(n ast.Node) bool {
-			if as, ok := n.(*ast.AssignStmt); ok && len(as.Lhs) == 1 && as.Tok == token.ASSIGN {
-				if sel, ok := unparen(as.Lhs[0]).(*ast.SelectorExpr); ok && sel.Sel.Name == "ToMeter" {
-					stores = append(stores, as)
-				}
-			}
-			return true
-		})
-		if len(stores) < 2 || !strings.Contains(strings.ToLower(fn.Name()), "unit") {
-			continue
-		}
-		// one branch (geographic) scales by A, the other stores the factor itself
-		plain := false
-		sc := newFnScope(a.info, fd.Body)
-		for _, as := range stores {
-			if o := objOf(a.info, as.Rhs[0]); o != nil {
-				if d := sc.singleDef(o); d != nil {
-					if call, ok := unparen(d).(*ast.CallExpr); ok && isFuncIn(callee(a.info, call), "strconv", "ParseFloat") {
-						plain = true
-					}
-				}
-			}
-		}
-		if plain {
-			c.OK("C20.R2", cons, fd.Pos(), "projected systems: ToMeter = the UNIT conversion factor as parsed")
-		} else {
-			c.Bad("C20.R2", cons, fd.Pos(), "the UNIT clause of a projected system does not store its conversion factor unchanged into ToMeter")
-		}
-		return
-	}
-	c.Unk("C20.R2", cons, token.NoPos, "UNIT handler not found")
-}
-
-func (a *c20) registry() {
-	c := a.c
-	reg := projRegistry(c)
-	for _, r := range c20proj {
-		cons := "proj#projection-name(" + r[0] + "↔" + r[1] + ")"
-		w, p := reg.names[strings.ToLower(r[0])], reg.names[r[1]]
-		switch {
-		case w == nil:
-			c.Bad("C20.R3", cons, token.NoPos, "WKT projection name %q is not registered", r[0])
-		case p == nil:
-			c.Bad("C20.R3", cons, token.NoPos, "PROJ.4 projection name %q is not registered", r[1])
-		case w != p:
-			c.Bad("C20.R3", cons, c.P.Decl(w).Pos(), "WKT name %q is registered for %s but PROJ.4 name %q for %s", r[0], w.Name(), r[1], p.Name())
-		default:
-			c.OK("C20.R3", cons, c.P.Decl(w).Pos(), "both → %s", w.Name())
-		}
-	}
-	// aliases: defs[alias] = defs[name] in init
-	n := 0
-	for _, f := range a.p.Syntax {
-		for _, d := range f.Decls {
-			fd, ok := d.(*ast.FuncDecl)
-			if !ok || fd.Name.Name != "init" || fd.Body == nil {
-				continue
-			}
-			ast.Inspect(fd.Body, func(nd ast.Node) bool {
-				as, ok := nd.(*ast.AssignStmt)
-				if !ok || len(as.Lhs) != 1 || len(as.Rhs) != 1 {
-					return true
-				}
-				lx, ok := unparen(as.Lhs[0]).(*ast.IndexExpr)
-				if !ok {
-					return true
-				}
-				if _, isMap := a.info.TypeOf(lx.X).Underlying().(*types.Map); !isMap {
-					return true
-				}
-				alias, ok := constString(a.info, lx.Index)
-				if !ok {
-					return true
-				}
-				n++
-				cons := "proj#alias(" + alias + ")"
-				rx, ok := unparen(as.Rhs[0]).(*ast.IndexExpr)
-				if ok && sameExpr(a.info, rx.X, lx.X) {
-					if target, ok := constString(a.info, rx.Index); ok {
-						c.OK("C20.R3", cons, as.Pos(), "bound to the identical *SR of %q", target)
-						return true
-					}
-				}
-				c.Bad("C20.R3", cons, as.Pos(), "alias %q is bound to `%s`, not to the registered *SR of another name: it would not denote the same reference", alias, src(as.Rhs[0]))
-				return true
-			})
-		}
-	}
-	if n == 0 {
-		c.Unk("C20.R3", "proj#aliases", token.NoPos, "no alias registrations found")
-	}
 }
 
 // identity: `return nil, nil` in NewTransform only under Equal(...) true; and every Equal-true path returns nil.
